@@ -1,2 +1,147 @@
-/-! line-protocol driver for property C19, bitmap/VARR/DLIST part (stub) -/
-def main (_args : List String) : IO Unit := pure ()
+import MirVerif.Model.Bitmap
+import MirVerif.Model.Varr
+import MirVerif.Model.Dlist
+/-! Line-protocol driver for property C19, bitmap / VARR / DLIST part (`mirdrv_c19b`).
+One command per input line, one output line per command; see harness/c19_sets.c for the same
+protocol on the real headers.  `variant` prints which change-flag variant the model follows. -/
+open MirVerif
+
+structure DS where
+  bms : Bitmap.Heap
+  va : Varr.Varr Int
+  dl : Dlist.St
+
+def hex (w : Bitmap.Word) : String := String.ofList (Nat.toDigits 16 w.toNat)
+
+def dumpBm (bm : Bitmap.Bm) : String :=
+  s!"{bm.length}:" ++ ",".intercalate (bm.map hex)
+
+def b2s (b : Bool) : String := if b then "1" else "0"
+
+def natList (l : List Nat) : String := ",".intercalate (l.map toString)
+
+def optNat (o : Option Nat) : String := match o with | none => "-" | some x => toString x
+
+def optVal (o : Option Int) : String := match o with | none => "?" | some x => toString x
+
+def dumpDl (s : Dlist.St) : String :=
+  s!"f={natList (Dlist.toList s)} b={natList (Dlist.toListRev s)} h={optNat s.head} t={optNat s.tail}"
+
+def dumpVa (v : Varr.Varr Int) : String :=
+  s!"n={v.num} els=" ++ ",".intercalate ((Varr.abs v).map optVal) ++ s!" pol:{Varr.capacity v}"
+
+def nats (l : List String) : Option (List Nat) := l.mapM String.toNat?
+
+def initDS (nbm vsz nn : Nat) : DS :=
+  { bms := List.replicate nbm [], va := Varr.create vsz, dl := Dlist.init nn }
+
+def opRes (st : DS) (d : Nat) (r : Bitmap.Heap × Bool) : DS × String :=
+  ({ st with bms := r.1 }, s!"{b2s r.2} {dumpBm (Bitmap.hget r.1 d)}")
+
+def dlRes (st : DS) (r : Option Dlist.St) : DS × String :=
+  match r with
+  | none => (st, s!"rej {dumpDl st.dl}")
+  | some s' => ({ st with dl := s' }, s!"ok {dumpDl s'}")
+
+def step (st : DS) (toks : List String) : DS × String :=
+  let nb := st.bms.length
+  let bm := Bitmap.hget st.bms
+  let setBm (d : Nat) (v : Bitmap.Bm) : DS := { st with bms := st.bms.set d v }
+  match toks with
+  | ["variant"] => (st, if Bitmap.flagFix then "fixed" else "current")
+  | "R" :: args =>
+    match nats args with
+    | some [a, b, c] => (initDS a b c, "ok")
+    | _ => (st, "err")
+  | cmd :: args =>
+    if cmd.startsWith "b" then
+      match nats args with
+      | none => (st, "err")
+      | some a =>
+        if a.take (if cmd == "bs" || cmd == "bc" || cmd == "bt" || cmd == "brs" || cmd == "brc" then 1
+                   else a.length) |>.any (· ≥ nb) then (st, "err") else
+        -- the harness' reference covers bits < 5120; both sides refuse larger mutating requests
+        if (match cmd, a with
+            | "bs", [_, n] => decide (n ≥ 5120)
+            | "bc", [_, n] => decide (n ≥ 5120)
+            | "brs", [_, n, len] => decide (n + len > 5120)
+            | "brc", [_, n, len] => decide (n + len > 5120)
+            | _, _ => false) then (st, "err") else
+        match cmd, a with
+        | "bs", [d, n] => let r := Bitmap.setBit (bm d) n; (setBm d r.1, s!"{b2s r.2} {dumpBm r.1}")
+        | "bc", [d, n] => let r := Bitmap.clearBit (bm d) n; (setBm d r.1, s!"{b2s r.2} {dumpBm r.1}")
+        | "bt", [d, n] => (st, b2s (Bitmap.bitP (bm d) n))
+        | "brs", [d, n, len] => let r := Bitmap.rangeOp true (bm d) n len; (setBm d r.1, s!"{b2s r.2} {dumpBm r.1}")
+        | "brc", [d, n, len] => let r := Bitmap.rangeOp false (bm d) n len; (setBm d r.1, s!"{b2s r.2} {dumpBm r.1}")
+        | "bcp", [d, s] => let r := Bitmap.copy (bm d) (bm s); (setBm d r, dumpBm r)
+        | "beq", [x, y] => (st, b2s (Bitmap.equalP (bm x) (bm y)))
+        | "bis", [x, y] => (st, b2s (Bitmap.intersectP (bm x) (bm y)))
+        | "bem", [x] => (st, b2s (Bitmap.emptyP (bm x)))
+        | "bcn", [x] => (st, toString (Bitmap.bitCount (bm x)))
+        | "bmn", [x] => (st, toString (Bitmap.bitMin (bm x)))
+        | "bmx", [x] => (st, toString (Bitmap.bitMax (bm x)))
+        | "band", [d, x, y] => opRes st d (Bitmap.bAnd st.bms d x y)
+        | "bandc", [d, x, y] => opRes st d (Bitmap.bAndCompl st.bms d x y)
+        | "bior", [d, x, y] => opRes st d (Bitmap.bIor st.bms d x y)
+        | "bia", [d, x, y, z] => opRes st d (Bitmap.bIorAnd st.bms d x y z)
+        | "biac", [d, x, y, z] => opRes st d (Bitmap.bIorAndCompl st.bms d x y z)
+        | "bcl", [d] => (setBm d (Bitmap.clear (bm d)), dumpBm [])
+        | "bit", [x] => (st, natList (Bitmap.iterAll (bm x)))
+        | "bdump", [] => (st, " ".intercalate (st.bms.map dumpBm))
+        | _, _ => (st, "err")
+    else if cmd.startsWith "v" then
+      match args.mapM String.toInt? with
+      | none => (st, "err")
+      | some a =>
+        let v := st.va
+        let upd (v' : Varr.Varr Int) (out : String) : DS × String := ({ st with va := v' }, s!"{out} n={v'.num}")
+        match cmd, a with
+        | "vpush", [x] => upd (Varr.push v x) "ok"
+        | "vpusharr", xs => upd (Varr.pushArr v xs) "ok"
+        | "vpop", [] => match Varr.pop v with | none => (st, "rej") | some r => upd r.1 (optVal r.2)
+        | "vlast", [] => match Varr.last v with | none => (st, "rej") | some r => upd v (optVal r)
+        | "vget", [i] => match Varr.get v i.toNat with | none => (st, "rej") | some r => upd v (optVal r)
+        | "vset", [i, x] => match Varr.set v i.toNat x with | none => (st, "rej") | some r => upd r "ok"
+        | "vtrunc", [n] => match Varr.trunc v n.toNat with | none => (st, "rej") | some r => upd r "ok"
+        | "vexpand", [n] => let r := Varr.expand v n.toNat; upd r.1 s!"pol:{b2s r.2}"
+        | "vtailor", [n] => if n ≤ 0 then (st, "err") else upd (Varr.tailor v n.toNat) "ok"
+        | "vlen", [] => upd v (toString (Varr.length v))
+        | "vdump", [] => (st, dumpVa v)
+        | _, _ => (st, "err")
+    else if cmd.startsWith "l" then
+      match args.mapM String.toInt? with
+      | none => (st, "err")
+      | some a =>
+        let s := st.dl
+        let nn := s.next.length
+        if a.any (fun x => cmd != "lel" && (x < 0 || x.toNat ≥ nn)) then (st, "err") else
+        let linked (e : Int) : Bool := (Dlist.toList s).contains e.toNat
+        -- misuse the header cannot detect (element already linked): outside the specification
+        if (cmd == "lpre" || cmd == "lapp") && a.any linked then (st, "err") else
+        if (cmd == "lib" || cmd == "lia") && (match a with | [x, e] => linked e || x == e | _ => false) then (st, "err") else
+        match cmd, a with
+        | "lpre", [e] => dlRes st (Dlist.prepend s e.toNat)
+        | "lapp", [e] => dlRes st (Dlist.append s e.toNat)
+        | "lib", [b, e] => dlRes st (Dlist.insertBefore s b.toNat e.toNat)
+        | "lia", [x, e] => dlRes st (Dlist.insertAfter s x.toNat e.toNat)
+        | "lrm", [e] => dlRes st (Dlist.remove s e.toNat)
+        | "lel", [n] => (st, optNat (Dlist.el s n))
+        | "llen", [] => (st, toString (Dlist.length s))
+        | "lpn", [e] => (st, s!"{optNat (Dlist.prv s e.toNat)} {optNat (Dlist.nxt s e.toNat)}")
+        | "ldump", [] => (st, dumpDl s)
+        | _, _ => (st, "err")
+    else (st, "err")
+  | [] => (st, "err")
+
+partial def loop (h : IO.FS.Stream) (out : IO.FS.Stream) (st : DS) : IO Unit := do
+  let line ← h.getLine
+  if line.isEmpty then return ()
+  let toks := (line.trimAscii.toString.splitOn " ").filter (· ≠ "")
+  let (st', o) := step st toks
+  out.putStrLn o
+  loop h out st'
+
+def main (_args : List String) : IO Unit := do
+  let out ← IO.getStdout
+  loop (← IO.getStdin) out (initDS 4 0 8)
+  out.flush
